@@ -13,11 +13,16 @@
 #include <cstdio>
 #include <cstdlib>
 #include <iostream>
-#include <sstream>
+#include <streambuf>
 #include <stdexcept>
 #include <thread>
 #include <unistd.h>
 #include <vector>
+
+struct NullBuf : std::streambuf {
+    int overflow(int c) override { return c; }
+    std::streamsize xsputn(const char*, std::streamsize n) override { return n; }
+};
 
 static void on_alarm(int) { const char m[] = "WATCHDOG\n"; (void)!write(2, m, sizeof(m) - 1); _exit(3); }
 
@@ -112,8 +117,10 @@ static void barrier_rounds(size_t n, int gens, bool yield) {
 }
 
 int main() {
-    static std::ostringstream sink;
-    std::cerr.rdbuf(sink.rdbuf());   // the pool logs the exceptions it swallows
+    // the pool logs the exceptions it swallows to std::cerr from several workers at once: discard the text
+    // through a stateless (hence race-free) stream buffer
+    static NullBuf sink;
+    std::cerr.rdbuf(&sink);
     std::signal(SIGALRM, on_alarm);
     alarm(240);
     pool_rounds(1, 20);
